@@ -42,16 +42,21 @@ func (dc *docCase) parseGuarded(in []byte) (pj *simdjson.ParsedJson, perr error,
 	}
 	base := simdjson.SimProbeSnapshot()
 	hookTap = func(ev simdjson.SimEvent, h simdjson.SimHandle, arg int) {
-		if ev != simdjson.SimPSend {
+		if ev != simdjson.SimPSend && ev != simdjson.SimCRecv {
 			return
 		}
 		now := simdjson.SimProbeSnapshot()
-		if now[1] == base[1] { // sync_path probe did not fire: concurrent path, a consumer exists
+		if now[1] == base[1] { // sync_path probe did not fire: concurrent path, the other stage exists
 			return
 		}
 		_, _, capc, lenc := simdjson.SimRing(h)
-		if capc > 0 && lenc >= capc {
+		if ev == simdjson.SimPSend && capc > 0 && lenc >= capc {
 			panic(deadlockSentinel{fmt.Sprintf("sync path: producer about to send into a full channel (%d/%d) with no consumer running", lenc, capc)})
+		}
+		// on the sync path stage 1 has finished before anything is received: a blocking receive from an
+		// empty channel can never be satisfied (arg 3 is the non-blocking drain after a stage-2 failure)
+		if ev == simdjson.SimCRecv && arg != 3 && capc > 0 && lenc == 0 {
+			panic(deadlockSentinel{"sync path: consumer about to receive from an empty channel after the producer has finished"})
 		}
 	}
 	defer func() { hookTap = nil }()
